@@ -4,6 +4,7 @@ package main
 // models actually used by a run is copied into the evidence.
 
 import (
+	"sync"
 	"fmt"
 	"go/types"
 	"math/big"
@@ -129,8 +130,11 @@ func (x *Exec) mkCoin(ci *callInfo, denom, amt T) Val {
 }
 
 var coinTyp types.Type
+var coinMu sync.Mutex
 
 func (x *Exec) coinType(ci *callInfo) types.Type {
+	coinMu.Lock()
+	defer coinMu.Unlock()
 	if coinTyp != nil {
 		return coinTyp
 	}
